@@ -160,7 +160,7 @@ func (l *Lab) Gen(r *rand.Rand, o LabOpts) *LabCase {
 			}
 			c.Val = l.value(r, api, name, i, o.Hostile)
 			if r.IntN(8) == 0 {
-				c.Via = []string{"helper", "closure", "subpkg", "goroutine"}[r.IntN(4)]
+				c.Via = []string{"helper", "closure", "subpkg", "goroutine", "direct-nontest"}[r.IntN(5)]
 			}
 			n.Calls = append(n.Calls, c)
 		}
